@@ -15,7 +15,7 @@ TECHNIQUE = "solver-enumerated grammar documents through the instrumented MyST f
 LEVEL_TEXT = ("For every document of the bounded grammar (0-3 explicit targets as '(name)=' block targets, attribute ids or directive :name: options, 0-3 headings incl. duplicate titles and "
               "titles whose slug collides with an explicit name, 1-3 '#'-links with explicit or empty text or <project:#x> autolinks, to existing, missing and case-variant names, placed at top "
               "level / in a quote / in a list / in a directive) the real pipeline's result is compared with the oracle: explicit beats slug, refid is the id of the node carrying the name, empty "
-              "text is filled from the title or '#name', a missing target keeps the link and its text and yields exactly one xref_missing warning at the link's line, the number of references is unchanged.")
+              "text is filled from the target's own title/caption or '#name' (titled admonitions, captioned tables, untitled targets in both orders; non-ASCII names), a missing target keeps the link and its text and yields exactly one xref_missing warning at the link's line, the number of references is unchanged.")
 LEVEL_NOTE = ("Degenerate: documents are concrete once the solver has chosen the grammar alternatives (names become dict keys in docutils); the engine contributes exhaustive enumeration of the bounded "
               "grammar through case splits and executes the instrumented MyST code; no symbolic strings reach the transform. markdown-it and docutils run natively.")
 BUDGET_S = {"quick": 200, "thorough": 1200}
